@@ -202,7 +202,13 @@ struct Encoding<std::array<T, Length>, EnableIfIntegral<T>>
     else if (size != Length * sizeof(T))
       return ErrorStatus::InvalidContainerLength;
 
-    return reader->Read(&(*value)[0], &(*value)[Length]);
+    status = reader->Read(&(*value)[0], &(*value)[Length]);
+    if (!status)
+      return status;
+    else if (!ValidateIntegralRange(&(*value)[0], &(*value)[Length]))
+      return ErrorStatus::UnexpectedEncodingType;
+    else
+      return {};
   }
 };
 
@@ -245,7 +251,13 @@ struct Encoding<T[Length], EnableIfIntegral<T>> : EncodingIO<T[Length]> {
     else if (size != Length * sizeof(T))
       return ErrorStatus::InvalidContainerLength;
 
-    return reader->Read(&(*value)[0], &(*value)[Length]);
+    status = reader->Read(&(*value)[0], &(*value)[Length]);
+    if (!status)
+      return status;
+    else if (!ValidateIntegralRange(&(*value)[0], &(*value)[Length]))
+      return ErrorStatus::UnexpectedEncodingType;
+    else
+      return {};
   }
 };
 
